@@ -57,7 +57,10 @@ class Writer:
         return repr(v) if isinstance(v, float) else str(v)
 
     def b(self, tok, attr_default=None):
-        return "true" if tok == "1" else "false"
+        # xs:boolean: the words in any letter case the library accepts, the digits, surrounding whitespace
+        if tok == "1":
+            return self.rng.choice(["true", "true", "true", "True", "TRUE", "1", " true ", "1 "])
+        return self.rng.choice(["false", "false", "false", "False", "0", " false", "FALSE"])
 
     # -- criteria -----------------------------------------------------------------------------
     def comparison(self, t):
